@@ -1,6 +1,7 @@
 package fam
 
 import (
+	"bytes"
 	"crypto/sha256"
 	"encoding/hex"
 	"encoding/json"
@@ -178,12 +179,27 @@ func (wr *worldRunner) runCase(prop string, p profile, r *rng.R, stats map[strin
 	pinned := wr.pinFirst
 	wr.pinFirst = false
 	for i := 0; i < nops; i++ {
-		x := r.Intn(p.wRecv + p.wMsg + p.wDeposit + p.wQuery)
+		x := r.Intn(p.wRecv + p.wMsg + p.wDeposit + p.wQuery + p.wSend)
 		pin := pinned && i == 0
 		if pin {
 			x = 0
 		}
 		switch {
+		case x >= p.wRecv+p.wMsg+p.wDeposit+p.wQuery:
+			// a user's own bank send: to the orbiter account (anybody may), to the dust collector (nobody may: it is
+			// blocked, and does not exist as an account before the first sweep), to module accounts, to other users
+			from := wr.a.users[0].Raw
+			if r.Chance(15) {
+				from = wr.a.users[1].Raw
+			}
+			to := rng.Pick(r, []sdk.AccAddress{sim.DustAddr(), sim.DustAddr(), sim.OrbiterAddr(), sim.OrbiterAddr(), world.ModAddr("cctp"), world.ModAddr("warp"),
+				wr.a.users[2].Raw, wr.a.feeRcps[0].Raw, world.ModAddr("hyperlane")})
+			if r.Chance(70) {
+				// make sure the sender can pay
+				ops = append(ops, planned{world.Op{Kind: "deposit", To: from, Denom: sim.USDC, Amount: big.NewInt(100)}, pktInfo{shape: "deposit"}})
+			}
+			op := world.Op{Kind: "send", From: from, To: to, Denom: rng.Pick(r, []string{sim.USDC, sim.USDC, "ufoo"}), Amount: big.NewInt(int64(1 + r.Intn(60)))}
+			ops = append(ops, planned{op, pktInfo{shape: "send"}})
 		case x < p.wRecv:
 			pkt, info := g.genPacket()
 			if pin {
@@ -500,6 +516,8 @@ func describeOp(op world.Op, info pktInfo, o world.OpObs) string {
 		return fmt.Sprintf("msg %s signer=%q id=%q ids=%v max=%d => ok=%v %s %s", op.Msg.Kind, op.Msg.Signer, op.Msg.ID, op.Msg.IDs, op.Msg.Max, o.MsgOK, o.MsgErr, o.MsgPan)
 	case "deposit":
 		return fmt.Sprintf("deposit %s %s -> %x", op.Amount, op.Denom, []byte(op.To))
+	case "send":
+		return fmt.Sprintf("bank send %s %s from %x to %x => accepted=%v %s", op.Amount, op.Denom, []byte(op.From), []byte(op.To), o.MsgOK, o.MsgErr)
 	case "query":
 		return fmt.Sprintf("query %s %q %q => %v", op.Q.Kind, op.Q.ID, op.Q.CP, o.QueryV.JSON())
 	}
@@ -558,7 +576,7 @@ var sigProp = map[string]string{
 	"paused-action-executed": "C09", "unpaused-action-refused": "C09", "action-set": "C09", "action-query": "C09",
 	"stats-fold": "C12", "stats-changed-by-non-transfer": "C12",
 	"passthrough-over-limit-accepted": "C18", "passthrough-within-limit-refused": "C18", "limit-not-in-force": "C18", "passthrough-checked-late": "C18",
-	"prior-balance-changes-outcome": "C11", "prior-balance-not-swept": "C11", "prior-balance-other-denom-moved": "C11",
+	"dust-collector-not-blocked": "C11", "prior-balance-changes-outcome": "C11", "prior-balance-not-swept": "C11", "prior-balance-other-denom-moved": "C11",
 	"decoder-roundtrip": "C15", "middleware-not-transparent": "C07", "orbiter-state-touched": "C07",
 	"repeated-action-accepted": "C06", "ordered-payload-refused": "C06", "action-order": "C06", "final-coin": "C06",
 }
@@ -590,6 +608,14 @@ func (o *oracle) check0(op world.Op, info pktInfo, obs world.OpObs) []Failure {
 		return nil
 	}
 	switch op.Kind {
+	case "send":
+		if obs.MsgOK && bytes.Equal(op.To, sim.DustAddr()) {
+			fs = append(fs, o.fail("dust-collector-not-blocked", "a user's bank send to the dust collector address is accepted: the account can be occupied before the module account exists, and what is swept there is no longer out of reach", desc))
+		}
+		if obs.MsgPan != "" {
+			fs = append(fs, o.fail("msg-panic", "a bank send panics: "+obs.MsgPan, desc))
+		}
+		return fs
 	case "recv":
 		orbFlow := world.IsOrbiterFlow(op.Pkt)
 		// C14: never a panic
